@@ -18,10 +18,13 @@ mod c12;
 mod c13;
 mod c14;
 mod c15;
+mod c17;
 mod c18;
 mod c20;
 mod mp;
 mod sut;
+#[path = "../../shared/ref_interp.rs"]
+mod ref_interp;
 
 use common::*;
 
@@ -43,6 +46,7 @@ macro_rules! dispatch {
             "C13" => $f::<c13::C13>($($arg),*),
             "C14" => $f::<c14::C14>($($arg),*),
             "C15" => $f::<c15::C15>($($arg),*),
+            "C17" => $f::<c17::C17>($($arg),*),
             "C18" => $f::<c18::C18>($($arg),*),
             "C20" => $f::<c20::C20>($($arg),*),
             other => {
